@@ -127,6 +127,7 @@ func (s *Rtmp2MpegtsRemuxer) FeedRtmpMessage(msg base.RtmpMsg) {
 }
 
 func (s *Rtmp2MpegtsRemuxer) Dispose() {
+	s.filter.Flush()
 	s.FlushAudio()
 }
 
